@@ -387,7 +387,8 @@ Fixpoint of_json (j : jv) {struct j} : option pv :=
   end.
 
 (* the wrapper Delta.__init__ puts around a deserializer without safe_to_import:
-   every entry of the _iterable_opcodes entry is rebuilt with Opcode-star-star-op.
+   every entry of the _iterable_opcodes entry is rebuilt with Opcode-star-star-op (a mapping)
+   or Opcode-star-op (a list).
    None = TypeError (the double-star argument must be a mapping; unexpected or missing keyword) *)
 Local Open Scope string_scope.
 Definition OP_FIELDS : list string :=
@@ -413,7 +414,15 @@ Definition opcode_of (x : pv) : option pv :=
         | _, _, _, _, _ => None     (* other field types: outside the model *)
         end
       else None
-  | _ => None                        (* a list (what a named tuple becomes in JSON): TypeError *)
+  (* a list - what a named tuple becomes in JSON with the builtin json module: Opcode( *op ),
+     five required fields and two that default to None (since fix c7b983b) *)
+  | PList [PAtom (AStr tag); PAtom (AInt i1); PAtom (AInt i2); PAtom (AInt j1); PAtom (AInt j2)] =>
+      Some (POpcode tag i1 i2 j1 j2 (PAtom ANone) (PAtom ANone))
+  | PList [PAtom (AStr tag); PAtom (AInt i1); PAtom (AInt i2); PAtom (AInt j1); PAtom (AInt j2); o] =>
+      Some (POpcode tag i1 i2 j1 j2 o (PAtom ANone))
+  | PList [PAtom (AStr tag); PAtom (AInt i1); PAtom (AInt i2); PAtom (AInt j1); PAtom (AInt j2); o; n] =>
+      Some (POpcode tag i1 i2 j1 j2 o n)
+  | _ => None                        (* wrong number of fields: TypeError; other field types: outside the model *)
   end.
 Local Close Scope string_scope.
 
